@@ -42,6 +42,7 @@ struct Db : public resolvo::DependencyProvider {
     // scratch vectors reused across callbacks (size < capacity after clear())
     resolvo::Vector<resolvo::SolvableId> scratch, scratch_c;
     uint64_t slack_vectors = 0;
+    uint64_t inner_pointers = 0;
 
     std::string solv_str(uint32_t s) {
         std::stringstream ss;
@@ -113,6 +114,15 @@ struct Db : public resolvo::DependencyProvider {
         }
         // exercise copy / assignment of the struct that crosses the boundary
         resolvo::Candidates copy = r;
+        if (callbacks % 3 == 0) {
+            // a provider that keeps `favored` / `locked` alive by pointing them at elements of the
+            // candidates vector it returns in the same struct (the storage travels with the struct)
+            const resolvo::Vector<resolvo::SolvableId>& cv = copy.candidates;
+            for (size_t i = 0; i < cv.size(); ++i) {
+                if (p.favored >= 0 && cv.cbegin()[i].id == (uint32_t)p.favored) { copy.favored = cv.cbegin() + i; inner_pointers++; }
+                if (p.locked >= 0 && cv.cbegin()[i].id == (uint32_t)p.locked) { copy.locked = cv.cbegin() + i; inner_pointers++; }
+            }
+        }
         return copy;
     }
     void sort_candidates(resolvo::Slice<resolvo::SolvableId> s) override {
@@ -170,7 +180,7 @@ int main(int argc, char** argv) {
     resolvo::Vector<resolvo::VersionSetId> cons;
     resolvo::Vector<resolvo::SolvableId> soft;
     std::string line;
-    uint64_t solved = 0, callbacks = 0, slack = 0;
+    uint64_t solved = 0, callbacks = 0, slack = 0, inner = 0;
     // the result vector is reused across problems in three ways: fresh, still owning the storage
     // of the previous solution, and sharing that storage with a copy the caller kept
     resolvo::Vector<resolvo::SolvableId> result;
@@ -180,7 +190,7 @@ int main(int argc, char** argv) {
         std::stringstream ls(line);
         ls >> tok;
         if (tok == "U") {
-            if (db) { callbacks += db->callbacks; slack += db->slack_vectors; }
+            if (db) { callbacks += db->callbacks; slack += db->slack_vectors; inner += db->inner_pointers; }
             delete db;
             db = new Db();
             size_t a, b, c, d, e;
@@ -321,7 +331,8 @@ int main(int argc, char** argv) {
     }
     if (db) callbacks += db->callbacks;
     if (db) slack += db->slack_vectors;
+    if (db) inner += db->inner_pointers;
     delete db;
-    std::cerr << "solved=" << solved << " callbacks=" << callbacks << " vectors_with_slack_returned=" << slack << "\n";
+    std::cerr << "solved=" << solved << " callbacks=" << callbacks << " vectors_with_slack_returned=" << slack << " favored_or_locked_pointing_into_returned_vector=" << inner << "\n";
     return 0;
 }
